@@ -15,17 +15,107 @@ COMMON_NOTE = (
 
 # property -> (technique, claim text, not-decided note, design section)
 CLAIMED = {
+    "C01": (
+        "provenance (def-use) tables for the Request event and the ASGI scope, event->message mapping table, call-site count of spawn_app, sequential-delivery (await, no spawn) rule, predicate table of filter_pseudo_headers / valid_server_name, shared CFG rules for DATA acknowledgement and pipelined-reader release",
+        "Every field of the Request event (h11 and h2 construction sites) and every scope key of both stream classes is traced back to its source term; Body/EndBody producers and the http.request messages they become are enumerated; spawn_app has one awaited call site per stream class; header filtering and server-name matching are evaluated as decision tables over sample header names. A crossed/dropped field, a wrong more_body constant, a spawned delivery, a missing acknowledgement or a case-sensitive host match is wrong for every request of that shape, whatever the segmentation.",
+        "byte equality under every framing/segmentation (h11/h2 incremental parsers), unquote semantics, timing between reads and application progress.",
+        "5/C01",
+    ),
+    "C02": (
+        "exhaustive evaluation of suppress_body over 3 methods x 500 statuses, guard/provenance rules on every Body/Trailers/Response emission, header-sequence normaliser (chain/+/list) compared with the required order, one-to-one event->library-operation table, shared C09 flow rules, typestate emission grammar",
+        "The body-omission predicate is evaluated on its whole domain; each emission site must be guarded by it with the request method and response status; the header sequence handed to h11/h2 is application headers then server headers; trailers only under the version and te guards; 1xx vs final split; status/headers/body provenance from the ASGI message. HTTP/2 trailers without END_STREAM (h2 refuses them) is reported as known finding F-31.",
+        "that h11/h2 serialise those events into bytes a client parses back identically; framing choices inside h11; byte-level flow control.",
+        "5/C02",
+    ),
+    "C05": (
+        "CFG must-pass-through with exceptional edges (every exit of _handle passes send(None)), handler-shape rules, call-graph reachability of reset_stream from the StreamClosed arm, h2 configuration rule, typestate rules for the app_send(None) arms",
+        "Both task-group wrappers are checked on all normal, exceptional and cancellation exits; application errors are logged and contained; the wrapper is spawned with the stream's own send/receive; h2 keeps outbound header normalisation on (the server's 500 carries connection: close). The missing RST_STREAM on abort is reported as known finding F-15.",
+        "what bytes the client sees and when; that sibling streams keep working beyond 'nothing escapes into the shared task group' (C04).",
+        "5/C05",
+    ),
+    "C06": (
+        "truth-table comparison of the recycle guard, CFG dominance/must-pass-through in _maybe_recycle and _close_stream, evaluation of the keep-alive comparison at boundary values, attribute-write census for self.stream and the request counter, non-yielding-await rule for EventWrapper.clear",
+        "Recycling happens exactly when not terminated and both h11 sides are DONE and every path ends recycled or closed; connection: close is announced exactly at requests >= max with a +1-per-stream counter; the paused reader parks with clear();wait() and is released on both paths only after the old stream was torn down; body events go only to the single current stream; server-generated error responses announce close.",
+        "that h11 never yields events of request N+1 before start_next_cycle; byte boundaries inside reads; h11's own Connection/HTTP/1.0 state tracking.",
+        "5/C06",
+    ),
+    "C07": (
+        "CFG must-pass-through and dominance over the idle-signalling sites (every stream removal is followed by Updated computed after the removal), terminal-release rules for parked tasks, finally-coverage of the task group, idle-timer shape rules per worker, evaluated idle predicates",
+        "All sites that remove an HTTP/2 stream or recycle an HTTP/1 connection are enumerated and must announce idleness afterwards; the timer waits for `terminated` at most keep_alive_timeout and then always closes; Updated events start/stop the timer; the transport is closed in a finally covering the task group; read loops report Closed on every exit. Known findings: F-19 (parked pipelined reader never released), F-20 (handler lingers keep_alive_timeout after EOF, both workers).",
+        "expiry instants, behaviour under virtual time, that busy connections are never closed by the timer under every interleaving.",
+        "5/C07",
+    ),
+    "C08": (
+        "evaluation of the high/low-water guards as functions of len(buffer), CFG ordering rules in StreamBuffer.push/pop/close, terminal-release reachability (Closed, RST_STREAM, h2 errors -> StreamBuffer.close), lock/await rules for transport writes, await census of every send callback, shared C09 wake-up rules",
+        "The sender blocks exactly at len(buffer) >= BUFFER_HIGH_WATER (a positive module constant) and is released only by rules over the remaining data or by close(); connection close, stream reset and h2 stream errors all reach StreamBuffer.close; transport writes are written+drained under the send lock and failures reported as Closed; every protocol/stream send is awaited. Known finding F-21: release is keyed on the popped chunk, so the buffer is unbounded at a closed window.",
+        "the numeric bound itself, fairness between streams, promptness; asyncio drain / trio send_all semantics.",
+        "5/C08",
+    ),
     "C09": (
         "ast dataflow (provenance of the DATA payload and its length), per-function CFG must-pass-through (unblock->wake-up, pop->block, end_stream->cleanup, mutate->flush), exhaustiveness of the h2 event dispatch, finite decision table of _window_updated",
-        "Every send site, unblock site, h2-mutating call and event arm of H2Protocol/StreamBuffer is enumerated from the current source and checked on all CFG paths: DATA length = max(0, min(stream window, frame size)); nothing-sent => stream blocked; unblock => send task woken; wait/clear/re-check discipline of the send task; END_STREAM only when complete and followed by cleanup; all eight h2 events dispatched, stream-0 and SETTINGS window changes unblock all streams; received DATA acknowledged; produced bytes flushed. These are necessary conditions: breaking any one breaks flow-control compliance or liveness for some frame sequence.",
+        "Every send site, unblock site, h2-mutating call and event arm of H2Protocol/StreamBuffer is enumerated from the current source and checked on all CFG paths: DATA length = max(0, min(stream window, frame size)); nothing-sent => stream blocked; unblock => send task woken; wait/clear/re-check discipline of the send task; END_STREAM only when complete and followed by cleanup; all eight h2 events dispatched, stream-0 and SETTINGS window changes unblock all streams; received DATA acknowledged; produced bytes flushed.",
         "delivery order/completeness under arbitrary task interleavings, priority-tree fairness, h2's own window accounting.",
         "5/C09",
     ),
+    "C10": (
+        "CFG reachability from the overflow handler, boundary evaluation of the size comparison, type-preservation tables, guard evaluation of the bytes/text dispatch with empty and None payloads, event-arm rules for ping/close",
+        "A finished message is delivered once and the buffer cleared; overflow sends 1009, leaves the loop, delivers nothing and stays latched; extend() raises iff accumulated length > max; StringIO iff text; every ping answered with event.response(); empty binary payloads are still binary; received bytes reach wsproto unmodified.",
+        "fragment reassembly, UTF-8 splitting, permessage-deflate (inside wsproto); byte equality.",
+        "5/C10",
+    ),
+    "C11": (
+        "exhaustive evaluation (checker's own interpreter) of Handshake.is_valid over 360 handshakes and of the HTTP/1.1 upgrade detection over 80 header combinations, header->field table, CFG dominance in _accept, disconnect-code table over all states, typestate rules",
+        "Validity and carrier detection are decision tables compared with RFC 6455/8441 references; accept renders 101/200, the accept token from the key, only an offered subprotocol, validated extra headers, and validates before any state change or emission; close during handshake gives 403; the disconnect code is 1000 only after the stream's own close. Known finding F-23: a client-initiated close is reported as 1006.",
+        "the accept token value and extension negotiation (wsproto).",
+        "5/C11",
+    ),
+    "C12": (
+        "evaluation of the app_send dispatch chains for every (message type, state, version) against a reference automaton of the ASGI specification, arm-sensitive provenance of header lists to wire events, interpretation of build_and_validate_headers on adversarial inputs, CFG dominance of the str checks, typestate reject=no-op rule",
+        "Each of 80 (type, state) pairs must be accepted exactly when the reference automaton allows it and otherwise reach raise UnexpectedMessageError; every application header list reaching Response/InformationalResponse/Trailers/Request passes the validator, which rejects pseudo-headers (also after stripping), non-bytes, and CR/LF/NUL. Known findings F-26: http.response.push and websocket.close are accepted after completion.",
+        "what h11/h2/wsproto validate on their own.",
+        "5/C12",
+    ),
+    "C13": (
+        "guard/provenance rules on the two switch exceptions and their handlers, argument-list equality of the replacement protocol construction, literal check of the replayed preface prefix, decision table for WebSocket carrier detection, ordering rules (initiate before replay)",
+        "ALPN h2 picks H2Protocol with the same nine collaborators; _check_protocol precedes stream creation; the h2c switch needs upgrade: h2c and no body, is announced with 101, and both switches carry h11's trailing bytes; each handler builds a new H2Protocol, initiates it and replays error.data exactly once unless empty; the replayed prefix is exactly what h11 consumed; the WebSocket pass-through is seeded with trailing data and returns buffered bytes once.",
+        "independence from segmentation (h11 buffering), TLS/ALPN negotiation, that h2 accepts the replayed bytes; the h2c path itself raises TypeError with the installed h2 4.4.1 (reported under C04).",
+        "5/C13",
+    ),
+    "C14": (
+        "CFG dominance (wait_for_startup dominates every accept-enabling call), handler-shape and guard rules for failure propagation, bounded-wait rules, call-site census of wait_for_shutdown, per-connection state-copy rule",
+        "No server, listener, socket creation or per-connection class is reachable in worker_serve before the awaited wait_for_startup; startup.failed raises without releasing the wait itself and is re-raised; waits are bounded by the configured timeouts; lifespan.shutdown is requested once after the drain construct; each connection gets ConnectionState(state.copy()); unsupported lifespan is downgraded, logged and never blocks.",
+        "races between startup completion and task completion, kernel backlog of inherited sockets.",
+        "5/C14",
+    ),
+    "C15": (
+        "CFG must-pass-through from the trigger wait to terminated.set(), ordering/dominance of the shutdown steps, census of awaits between terminated.set() and the bounded wait, truth table of the GOAWAY guard, trigger-race rule",
+        "Every exit of the trigger wait sets terminated; listeners are closed, connection tasks awaited at most graceful_timeout, then lifespan shutdown; trio puts the deadline on the nursery owning the handlers; HTTP/2 refuses new streams and goes away when idle; HTTP/1 does not recycle; both trigger sources are raced. Known finding F-27: server.wait_closed() precedes the bounded wait (unbounded on CPython >= 3.12).",
+        "wall-clock bounds, what clients observe, runtime cancellation semantics.",
+        "5/C15",
+    ),
+    "C17": (
+        "CFG must-pass-through with exceptional edges (close on every exit), feasible-path enumeration with constant flag tracking (start before first chunk, exactly once), boundary evaluation of the accumulated-size comparison, environ provenance table, reference census of run_app",
+        "The WSGI callable has one call site; run_app is only ever the argument of sync_spawn and its sends wait for completion; from binding the iterable every exit passes the guarded close(); response_started is tested only after iteration began/ended; the accumulated body is compared with the limit and an oversized body is answered 400 without reaching the application; environ keys derive from their scope fields with repeated headers comma-joined.",
+        "value-level equality of environ entries for arbitrary input, thread-pool behaviour.",
+        "5/C17",
+    ),
+    "C18": (
+        "wiring table (each limit read at its own sink), census of readers per config key, boundary evaluation of the three comparators, unconditional once-per-stream counting rules, jitter formula rule, library-fact rule for the HPACK decoder limit",
+        "Ten limit settings are traced to their enforcement points; comparators are evaluated at boundary values (>= for HTTP/1, > for HTTP/2 and the worker); every created stream is counted and marked once; max_requests gets randint(0, jitter) added and terminate is raced with the shutdown trigger in both workers.",
+        "that h11/h2/wsproto enforce the limits they are configured with.",
+        "5/C18",
+    ),
     "C19": (
         "ast model of argparse declarations and sentinel-guarded copy statements (wiring table), provenance of loader return values, truth-table comparison of header emission guards, branch-structure rules for bind parsing",
-        "All CLI flags (every add_argument call) and all `config.Y = args.Z` statements are modelled from the source; each flag must set exactly its own setting from its own argument under a sentinel test whose default really is the sentinel; list flags append/copy-if-non-empty; the three loaders funnel into from_mapping which setattr()s every key; bind/root_path setters normalise; response_headers emits date/server/alt-svc exactly under their switches (truth table) in order; _create_sockets has the unix/fd/host:port branch structure. A crossed, dropped or always-true wiring is a violation for every value of that flag, which the test-suite (one literal per flag) cannot see.",
+        "All CLI flags (every add_argument call) and all `config.Y = args.Z` statements are modelled from the source; each flag must set exactly its own setting from its own argument under a sentinel test whose default really is the sentinel; list flags append/copy-if-non-empty; the three loaders funnel into from_mapping which setattr()s every key; bind/root_path setters normalise; response_headers emits date/server/alt-svc exactly under their switches (truth table) in order; _create_sockets has the unix/fd/host:port branch structure.",
         "the sockets the OS produces for arbitrary bind strings, tomllib/importlib/argparse behaviour, value-level date formatting.",
         "5/C19",
+    ),
+    "C20": (
+        "interpretation of _get_trusted_value's selection on 30 (hops, values) cases, CFG dominance of deepcopy over scope writes, guard rules for dispatch and lifespan fan-out, truth table of the redirect predicate, provenance of the rebuilt URL",
+        "The trusted value is the one trusted_hops from the right or None (table); the scope is deep-copied before any write and the header list rebuilt, not mutated; mounts are tried in order with first match and a never-empty rewritten path, else 404; each lifespan *.complete is forwarded only when all flags of the same stage are set; exactly cleartext http/ws scopes are redirected, others pass through with the same objects.",
+        "string-level results for arbitrary header contents, urlunsplit semantics.",
+        "5/C20",
     ),
 }
 
